@@ -93,6 +93,9 @@ func rC04OnlyParserInterprets(w *World, r *Report) {
 	for _, target := range []string{nIsOption, nMatcher} {
 		for _, fn := range w.Funcs {
 			for _, c := range callsTo(fn, target) {
+				if w.detachedAPI(fn) {
+					continue // a new accessor for the program: Parse and Dispatch do not reach it
+				}
 				n++
 				ok := fn == p || (fn.Parent() != nil && fn.Parent() == p) || onlyCalledFrom(w, fn, map[string]bool{nParseCLI: true})
 				ru.Check(ok, "interpreter/"+target+"/"+short(fn), w.IPos(c), "called by the parser", target+" is called outside the parser: tokens the parser returned verbatim (e.g. behind `--`) are interpreted after all")
